@@ -29,7 +29,8 @@ def generate(d):
     lib = """#![allow(unused, dead_code)]
 #![cfg(kani)]
 use arrayvec::ArrayVec;
-use shimmap::{HashMap, HashSet};
+use shimmap::HashMap;
+use shimmap::bitset::HashSet;
 type BucketId = u16;
 type PartitionId = u16;
 // ---- mock context: the fields of AppConfig that the sliced methods read (same names and types)
@@ -53,5 +54,5 @@ impl Topo {
 """ + thr + "\n// ---- harness\n" + h
     gen.write_crate(d, "topo-slices", 'arrayvec = "0.7"\nshimmap = { path = "%s" }' % gen.mock("shimmap"), lib)
     rewrites.append("slice: AppConfig::{assigned_buckets,assigned_partitions,node_count} (config.rs), TopologyManager::{calculate_assigned_partitions,calculate_partition_replicas} (manager.rs, T := u32), "
-                    "bucket_id_to_thread_id (writer_thread_pool.rs), MAX_REPLICATION_FACTOR verbatim; mock AppConfig with only the fields read; HashMap/HashSet -> array-backed shims; real arrayvec")
+                    "bucket_id_to_thread_id (writer_thread_pool.rs), MAX_REPLICATION_FACTOR verbatim; mock AppConfig with only the fields read; HashMap -> array-backed shim, HashSet<u16> -> 64-bit bit set (ids < 64); real arrayvec")
     return {"rewrites": rewrites, "harness_file": None}
